@@ -285,7 +285,8 @@ public:
         for (Step step : steps) {
             Date st = step.start_date();
             Date end = step.end_date();
-            if (st.month() != end.month() || end.is_last_day_of_month())
+            if (st.month() != end.month() || st.year() != end.year()
+                || end.is_last_day_of_month())
                 schedule.push_back(true);
             else
                 schedule.push_back(false);
